@@ -3,7 +3,7 @@
 
    [vnodup fs] (the names of the non-skipped fields are pairwise different) is what the macros'
    own `validate` enforces at compile time; it is the NoDup hypothesis of the property. *)
-From SV Require Import Base.Prelude Base.Bytes Model.Derive Model.DeriveSpec Proofs.Derive_proofs.
+From SV Require Import Base.Prelude Base.Bytes Model.Derive Model.DeriveSpec Proofs.Derive_proofs Proofs.C16_pipeline.
 From Coq Require Import Permutation String.
 Open Scope N_scope.
 
@@ -328,6 +328,105 @@ Theorem C16_roundtrip_ordered_row : forall d ls cols cells, leaves_only (rd_fiel
   gen_deser_row_ordered (rd_snc d) ls cols cells = Ok (map rback_value ls).
 Proof. exact roundtrip_row_ordered. Qed.
 
+(* ================================================================ deepening round 4 =========
+   Theorems about the functions the DRIVER calls: the flavor dispatchers [gen_ser_value(_cells)],
+   [gen_typeck_value], [gen_deser_value], [gen_ser_row(_cells)], [gen_typeck_row], [gen_deser_row],
+   the macros' [vdesc_valid], and the boolean predicates [cells_eqb], [outcome_agrees], [rt_okb].
+   The right-hand sides are the tables the driver selects (ocaml/c16/driver.ml doc_ser_value,
+   doc_de_value, doc_ser_row, doc_de_row), flavor by flavor; the NoDup premises of the per-flavor
+   theorems are discharged from [vdesc_valid] / [rdesc_wf], which the driver evaluates. *)
+
+Theorem C16_cells_eqb_iff : forall a b, cells_eqb a b = true <-> a = b.
+Proof. exact cells_eqb_iff. Qed.
+
+(* the driver's "does the observed outcome agree with the documented one" is equality *)
+Theorem C16_outcome_agrees_iff : forall obs doc,
+  outcome_agrees obs doc = true <-> obs = option_cells doc.
+Proof. exact outcome_agrees_iff. Qed.
+
+Theorem C16_rt_okb_iff : forall f x, rt_okb f x = true <-> rt_ok f x.
+Proof. exact rt_okb_iff. Qed.
+
+(* the macros' validate, as a proposition: pairwise different names of the non-skipped fields; and
+   skip_name_checks only with enforce_order, allow_missing only at the end, no rename *)
+Theorem C16_vdesc_valid_iff : forall d, vdesc_valid d = true <->
+  NoDup (map vf_name (nonskipped (vd_fields d))) /\
+  (vd_snc d = true ->
+     vd_ordered d = true /\ am_only_at_end (vd_fields d) = true /\
+     forall f, In f (vd_fields d) -> vf_rename f = None).
+Proof. exact vdesc_valid_iff. Qed.
+
+(* SerializeValue, EVERY descriptor the macro accepts: outside the class of finding F24 the
+   generated code's outcome is the documented table of the descriptor's flavor; it never panics; the
+   bytes are the framed cells; a non-UDT type is rejected.  (The NoDup premise on the UDT's names is
+   kept for by-name - the documentation is silent about duplicates - although the proof does not
+   use it.) *)
+Theorem C16_value_ser_pipeline : forall d db, vdesc_valid d = true ->
+  (vd_ordered d = false -> NoDup (map fst db)) ->
+  (vd_ordered d = true -> vd_snc d = false -> ordered_am_drops d db = false) ->
+  outcome_of (gen_ser_value_cells d db) =
+    (if vd_ordered d then
+       if vd_snc d then doc_ser_value_snc d db else doc_ser_value_ordered_strict d db
+     else doc_ser_value_by_name d db) /\
+  gen_ser_value_cells d db <> Err EPanic /\
+  gen_ser_value d (TUdt db) =
+    match gen_ser_value_cells d db with Ok cs => Ok (frame_value cs) | Err e => Err e end /\
+  (forall n, gen_ser_value d (TNative n) = Err ENotUdt).
+Proof. exact value_ser_pipeline. Qed.
+
+(* DeserializeValue, EVERY descriptor the macro accepts: type_check followed by deserialize - the
+   pipeline the driver runs - has the outcome of the documented table of the flavor (Reject when the
+   documented type check rejects: no premise on the type check any more) and never panics *)
+Theorem C16_value_deser_pipeline : forall d db cells, vdesc_valid d = true ->
+  (vd_ordered d = true -> vd_snc d = false -> ordered_am_drops d db = false) ->
+  outcome_of (match gen_typeck_value d (TUdt db) with
+              | Ok _ => gen_deser_value d db cells
+              | Err e => Err e
+              end) =
+    (if vd_ordered d then
+       if vd_snc d then doc_deser_value_snc d db cells else doc_deser_value_ordered_strict d db cells
+     else doc_deser_value_by_name d db cells) /\
+  (match gen_typeck_value d (TUdt db) with
+   | Ok _ => gen_deser_value d db cells
+   | Err e => Err e
+   end) <> Err EPanic /\
+  (forall n, gen_typeck_value d (TNative n) = Err ENotUdt).
+Proof. exact value_deser_pipeline. Qed.
+
+(* SerializeRow, every flavor and flatten tree *)
+Theorem C16_row_ser_pipeline : forall d cols, (rd_ordered d = false -> rdesc_wf d = true) ->
+  outcome_of (gen_ser_row_cells d cols) =
+    (if rd_ordered d then doc_ser_row_ordered_gen d cols else doc_ser_row_by_name d cols) /\
+  gen_ser_row_cells d cols <> Err EPanic /\
+  gen_ser_row d cols =
+    match gen_ser_row_cells d cols with Ok cs => Ok (frame_cells cs) | Err e => Err e end.
+Proof. exact row_ser_pipeline. Qed.
+
+(* DeserializeRow (no flatten), every flavor: type_check then deserialize = the documented table;
+   never panics.  [rdesc_wf] is needed exactly where the driver asks for it. *)
+Theorem C16_row_deser_pipeline : forall d ls cols cells, leaves_only (rd_fields d) = Some ls ->
+  List.length cells = List.length cols ->
+  (rd_ordered d && rd_snc d = false -> rdesc_wf d = true) ->
+  outcome_of (match gen_typeck_row d ls cols with
+              | Ok _ => gen_deser_row d ls cols cells
+              | Err e => Err e
+              end) =
+    (if rd_ordered d then
+       if rd_snc d then doc_deser_row_snc ls cols cells else doc_deser_row_ordered ls cols cells
+     else doc_deser_row_by_name ls cols cells) /\
+  (match gen_typeck_row d ls cols with
+   | Ok _ => gen_deser_row d ls cols cells
+   | Err e => Err e
+   end) <> Err EPanic.
+Proof. exact row_deser_pipeline. Qed.
+
+(* "the ordered serializers and the ordered value type_check have no panic site", as a theorem *)
+Theorem C16_ordered_nopanic :
+  (forall d db, gen_typeck_value_ordered d db <> Err EPanic) /\
+  (forall d db, gen_ser_value_ordered d db <> Err EPanic) /\
+  (forall d cols, gen_ser_row_ordered d cols <> Err EPanic).
+Proof. exact ordered_nopanic. Qed.
+
 (* non-vacuity: a struct with an allow_missing field declared BEFORE a required one (the shape of
    finding F1), renamed, skipped and default_when_null fields *)
 Definition ex_f (id : string) (ren : option string) (sk am dwn : bool) (t : rty) (v : cell) : vfield :=
@@ -542,6 +641,47 @@ Example C16_ex_rows_reject :
                              RFlat false false [ RLeaf (ex_l "a" None false false RInt None) ] ] |}%string = false.
 Proof. repeat split; vm_compute; reflexivity. Qed.
 
+(* round 4: the hypotheses of the pipeline theorems hold on concrete descriptors of every flavor
+   (and the F24 premise does exclude something); the predicates accept AND reject *)
+Definition ex_rl : rdesc :=
+  {| rd_ordered := true; rd_snc := false;
+     rd_fields := [ RLeaf (ex_l "a" None false false RInt (Some [0;0;0;1]));
+                    RLeaf (ex_l "s" None true false RInt (Some [0;0;0;9]));
+                    RLeaf (ex_l "b" None false true RText (Some [98])) ] |}%string.
+Example C16_ex_pipeline :
+  vdesc_valid ex_d = true /\ vdesc_valid ex_o = true /\ vdesc_valid ex_am = true /\ vdesc_valid ex_snc = true /\
+  nodupb (map fst [("c", DInt); ("x", DText); ("a", DInt)]%string) = true /\
+  ordered_am_drops ex_am [("a", DInt); ("b", DText)]%string = false /\
+  ordered_am_drops ex_am [("b", DText); ("a", DInt)]%string = true /\
+  outcome_of (match gen_typeck_value ex_am (TUdt [("a", DInt); ("b", DText)]%string) with
+              | Ok _ => gen_deser_value ex_am [("a", DInt); ("b", DText)]%string [Some [0;0;0;1]; Some [99]]
+              | Err e => Err e end) = Accept [Some [0;0;0;1]; Some [99]] /\
+  outcome_of (match gen_typeck_value ex_d (TUdt [("c", DText)]%string) with
+              | Ok _ => gen_deser_value ex_d [("c", DText)]%string [None]
+              | Err e => Err e end) = Reject /\
+  doc_deser_value_by_name ex_d [("c", DText)]%string [None] = Reject /\
+  vdesc_valid {| vd_ordered := false; vd_forbid := false; vd_snc := true; vd_fields := [] |} = false /\
+  leaves_only (rd_fields ex_rl) = Some [ ex_l "a" None false false RInt (Some [0;0;0;1]);
+                                         ex_l "s" None true false RInt (Some [0;0;0;9]);
+                                         ex_l "b" None false true RText (Some [98]) ]%string /\
+  rdesc_wf ex_rl = true /\
+  outcome_of (match gen_typeck_row ex_rl [ ex_l "a" None false false RInt None; ex_l "s" None true false RInt None;
+                                            ex_l "b" None false true RText None ]%string
+                                   [("a", DInt); ("b", DAscii)]%string with
+              | Ok _ => gen_deser_row ex_rl [ ex_l "a" None false false RInt None; ex_l "s" None true false RInt None;
+                                              ex_l "b" None false true RText None ]%string
+                                      [("a", DInt); ("b", DAscii)]%string [Some [0;0;0;5]; None]
+              | Err e => Err e end) = Accept [Some [0;0;0;5]; Some [0;0;0;0]; Some []] /\
+  outcome_of (gen_ser_row_cells ex_rl [("a", DInt); ("b", DText)]%string) = Accept [Some [0;0;0;1]; Some [98]] /\
+  outcome_agrees (Some [Some [1]]) (Accept [Some [1]]) = true /\
+  outcome_agrees (Some [Some [1]]) (Accept [None]) = false /\
+  outcome_agrees None (Accept [None]) = false /\
+  outcome_agrees (Some []) Reject = false /\
+  outcome_agrees None Reject = true /\
+  rt_okb (ex_f "a" None false true false RInt (Some [0;0;0;7])) (Some [0;0;0;0]) = true /\
+  rt_okb (ex_f "a" None false false false RInt (Some [0;0;0;7])) (Some [0;0;0;0]) = false.
+Proof. repeat split; vm_compute; reflexivity. Qed.
+
 Print Assumptions C16_by_name_ser.
 Print Assumptions C16_roundtrip.
 Print Assumptions C16_excess_missing_ser_value.
@@ -582,3 +722,12 @@ Print Assumptions C16_ordered_strict_ser_is_documented.
 Print Assumptions C16_ordered_typeck_characterised.
 Print Assumptions C16_ordered_ser_characterised.
 Print Assumptions C16_ord_bind_unique.
+Print Assumptions C16_cells_eqb_iff.
+Print Assumptions C16_outcome_agrees_iff.
+Print Assumptions C16_rt_okb_iff.
+Print Assumptions C16_vdesc_valid_iff.
+Print Assumptions C16_value_ser_pipeline.
+Print Assumptions C16_value_deser_pipeline.
+Print Assumptions C16_row_ser_pipeline.
+Print Assumptions C16_row_deser_pipeline.
+Print Assumptions C16_ordered_nopanic.
